@@ -431,6 +431,58 @@ func (c *checker) checkWindow(sp space, w window, viaFile bool) {
 		}
 	}
 
+	// ---- the window together with the expiry modes of a log (reject_expired / reject_unexpired), on an
+	// injected clock before, at and after the instant and on the real clock (currentTime unset; only for
+	// instants of 1969 and 2049, whose side of the real clock is not in doubt)
+	if serverUsable {
+		for _, t := range sp.insts {
+			ls := c.fx.leaves[t]
+			if ls == nil {
+				continue
+			}
+			for _, mode := range []string{"reject-expired", "reject-unexpired"} {
+				for _, ck := range []string{"fixed-2023", "at-NotAfter", "NotAfter+1ns", "real"} {
+					var now time.Time
+					var expired bool
+					switch ck {
+					case "fixed-2023":
+						now = fixedNow
+					case "at-NotAfter":
+						now = t.t()
+					case "NotAfter+1ns":
+						now = t.t().Add(1)
+					case "real":
+						if y := t.t().UTC().Year(); y != 1969 && y != 1970 && y != 2049 && y != 2050 {
+							continue
+						}
+					}
+					if ck != "real" && now.IsZero() {
+						continue // year 1, 1 January: the zero time.Time is how "no injected clock" is spelt
+					}
+					if ck == "real" {
+						expired = t.t().UTC().Year() <= 1970
+					} else {
+						expired = now.After(t.t())
+					}
+					want := w.inside(t) && ((mode == "reject-expired" && !expired) || (mode == "reject-unexpired" && expired))
+					o := ctfe.NewCertValidationOpts(c.fx.pool, now, mode == "reject-expired", mode == "reject-unexpired", sStart, sLimit, false, nil)
+					r.Eval(1)
+					var err error
+					name := "ValidateChain(cert, " + mode + ", clock " + ck + ")"
+					if pan, msg, stack := enum.Catch(func() { _, err = ctfe.ValidateChain(ls.chain, o) }); pan {
+						r.Violation("panic ValidateChain", msg+"\n"+stack, cd(&t, name, "panic", ""))
+						continue
+					}
+					if got := err == nil; got != want {
+						r.Violation(sig("server-admission-with-expiry-mode", got, want, t), fmt.Sprintf("%s window %s NotAfter %s: err=%v, reference inside=%v expired=%v", name, w, t, err, w.inside(t), expired),
+							cd(&t, name, fmt.Sprint(err), fmt.Sprint(want)))
+					}
+					c.r.Add("server_admissions_with_expiry_mode", 1)
+				}
+			}
+		}
+	}
+
 	// ---- the integration helper that picks a NotAfter for a configured log
 	if !viaFile && w.valid() && !w.inverted() && !w.empty() && (w.start.present || w.limit.present) {
 		r.Eval(1)
